@@ -1,0 +1,98 @@
+// Copyright 2025 Anapaya Systems
+//
+// Licensed under the Apache License, Version 2.0 (the "License");
+// you may not use this file except in compliance with the License.
+// You may obtain a copy of the License at
+//
+//   http://www.apache.org/licenses/LICENSE-2.0
+//
+// Unless required by applicable law or agreed to in writing, software
+// distributed under the License is distributed on an "AS IS" BASIS,
+// WITHOUT WARRANTIES OR CONDITIONS OF ANY KIND, either express or implied.
+// See the License for the specific language governing permissions and
+// limitations under the License.
+
+//! Verification hooks for the concurrency protocol between callers, the per-pair worker task and
+//! the manager (waiters wake, one worker per pair, drop stops workers).
+//!
+//! Only compiled with the `verif-hooks` feature. Gives the verification harness what a holder of
+//! a (crate-private) `PathSetHandle` has: the handle of a managed pair, the wait-then-read
+//! sequence `MultiPathManager::path` performs on it, and read access to the handshake state.
+
+use std::sync::Arc;
+
+use sciparse::{identifier::isd_asn::IsdAsn, path::ScionPath};
+
+use crate::path::{
+    fetcher::traits::{PathFetchError, PathFetcher},
+    manager::{MultiPathManager, pathset::PathSetHandle},
+};
+
+/// A `PathSetHandle` of a managed pair. Holding it does not keep the manager alive.
+#[derive(Clone)]
+pub struct VerifHandle(PathSetHandle);
+
+/// Snapshot of the handshake state of a path set (`PathSetSyncState` + active slot).
+#[derive(Debug, Clone)]
+pub struct VerifSyncState {
+    /// Initial fetch was completed (or the worker exited).
+    pub initialized: bool,
+    /// A fetch is ongoing.
+    pub ongoing: bool,
+    /// Display form of the current error, if any.
+    pub error: Option<String>,
+    /// The active path, if any.
+    pub active: Option<ScionPath>,
+}
+
+impl<F: PathFetcher> MultiPathManager<F> {
+    /// Returns the handle currently registered for the pair, if any. Does not start managing
+    /// the pair and does not mark it as used.
+    pub fn verif_handle(&self, src: IsdAsn, dst: IsdAsn) -> Option<VerifHandle> {
+        self.0
+            .managed_paths
+            .peek_with(&(src, dst), |_, (handle, _)| VerifHandle(handle.clone()))
+    }
+}
+
+impl VerifHandle {
+    /// What `MultiPathManager::path` does once it holds the handle: wait for an ongoing update if
+    /// there is no active path, then return the active path or the current error (`None` = no
+    /// error recorded, reported by `path` as `NoPathsFound`).
+    pub async fn path(&self) -> Result<ScionPath, Option<Arc<PathFetchError>>> {
+        let active = self.0.active_path().await.as_ref().map(|p| p.0.clone());
+        match active {
+            Some(active) => Ok(active),
+            None => Err(self.0.current_error()),
+        }
+    }
+
+    /// `PathSetHandle::current_error`.
+    pub fn current_error(&self) -> Option<Arc<PathFetchError>> {
+        self.0.current_error()
+    }
+
+    /// Reads the handshake state without marking the path set as used.
+    pub fn sync_state(&self) -> VerifSyncState {
+        let (initialized, ongoing, error) = {
+            let guard = self.0.shared.sync.lock().unwrap();
+            (
+                guard.initialized,
+                guard.ongoing_start.is_some(),
+                guard.current_error.as_ref().map(|e| e.to_string()),
+            )
+        };
+        let active = self.0.shared.active_path.load().as_ref().map(|p| p.0.clone());
+        VerifSyncState {
+            initialized,
+            ongoing,
+            error,
+            active,
+        }
+    }
+
+    /// Returns true if both handles refer to the same path set.
+    pub fn same(&self, other: &VerifHandle) -> bool {
+        Arc::ptr_eq(&self.0.shared, &other.0.shared)
+    }
+}
